@@ -8,11 +8,12 @@ vocabulary (`dedupLast`, `Reach`, `Missing`, `NoLinkCycle`, `PlacedIn`, `ClosedA
 `StepsOK`, `missedOf`) is defined in `SV.Lemmas.Sort`.
 
 Throughout, `es` is ANY list of tar headers, `prio` ANY prioritized list, `allow` says whether
-WithAllowPrioritizeNotFound was given.  The theorems about the result hold for EVERY run that
-returns (`sortEntries … = .ok out missed` / `.err`), whatever the tar.  That a run returns at all
-needs `NoLinkCycle (importTar es)` (no cycle in the parent-directory/hardlink graph): without it
-`moveRec` really does not terminate (`cycle_diverges_witness`; on the implementation a fatal stack
-overflow, oracle signature `moverec-link-cycle`).
+WithAllowPrioritizeNotFound was given; there is no hypothesis on the tar.  `sortEntries` always
+returns (`sortEntries_terminates`): `.ok out missed`, or `.err` for a missing path (when not
+allowed) or a cycle of hardlinks reached from a listed path.  Before the repair of `moveRec`
+(commit d5da172) such a cycle made the recursion run forever: `moveRecOld`,
+`cycle_diverges_witness` (on the implementation: fatal stack overflow, oracle signature
+`moverec-link-cycle`, now a regression stream).
 -/
 import SV.Lemmas.Sort
 
@@ -51,7 +52,7 @@ theorem sort_perm {es : List Entry} {prio : List String} {allow : Bool}
     {out : List Entry} {missed : List String}
     (h : sortEntries es prio allow = .ok out missed) :
     out.Perm (landmarkFor prio :: importTar es) ∧ out.Nodup := by
-  obtain ⟨blocks, hout, _, hsub, hnd, _⟩ := (sortEntries_structure prio allow).2 out missed h
+  obtain ⟨blocks, hout, _, hsub, hnd, _⟩ := (sortEntries_structure prio allow).2.2 out missed h
   have hinpnd : (importTar es).Nodup := nodup_of_keysNodup (importTar_keysNodup es)
   have hgnd : blocks.flatten.Nodup := nodup_of_keysNodup hnd
   have hperm : (blocks.flatten ++ (importTar es).filter (fun e => decide (e ∉ blocks.flatten))).Perm
@@ -90,7 +91,7 @@ theorem single_landmark {es : List Entry} {prio : List String} {allow : Bool}
     out.filter (fun e => isLandmarkKey e.key) = [landmarkFor prio] ∧
     (prio = [] → landmarkFor prio = landmarkEntry noPrefetchLandmark) ∧
     (prio ≠ [] → landmarkFor prio = landmarkEntry prefetchLandmark) := by
-  obtain ⟨blocks, hout, _, hsub, _⟩ := (sortEntries_structure prio allow).2 out missed h
+  obtain ⟨blocks, hout, _, hsub, _⟩ := (sortEntries_structure prio allow).2.2 out missed h
   refine ⟨?_, ?_, ?_⟩
   · rw [hout, List.filter_append, List.filter_cons]
     have h1 : blocks.flatten.filter (fun e => isLandmarkKey e.key) = [] := by
@@ -129,7 +130,7 @@ theorem rest_keeps_relative_order {es : List Entry} {prio : List String} {allow 
       rest.Sublist (importTar es) ∧ rest.Sublist es ∧
       (∀ e ∈ group, e ∈ importTar es) ∧
       (∀ e ∈ importTar es, e ∈ group ∨ e ∈ rest) := by
-  obtain ⟨blocks, hout, _, hsub, _⟩ := (sortEntries_structure prio allow).2 out missed h
+  obtain ⟨blocks, hout, _, hsub, _⟩ := (sortEntries_structure prio allow).2.2 out missed h
   refine ⟨blocks.flatten, _, hout, rfl, List.filter_sublist, ?_, hsub, ?_⟩
   · exact List.filter_sublist.trans (import_last_duplicate_wins es).2.1
   · intro e he
@@ -144,25 +145,14 @@ list (`StepsOK`): the block of `l` holds nothing but `l` itself and entries `l` 
 ancestors, hardlink targets, theirs, …: `Reach`), only entries not placed before (`sort_perm`:
 no entry occurs twice), and — when nothing `l` needs is missing — `l`'s entry is in the group
 from then on and, unless an earlier path already brought it in, is the LAST entry of its block,
-i.e. preceded by all of its not-yet-placed parent directories and hardlink targets (the
-alternative `SelfReach` in `BlockOK` is excluded by `block_ends_with_listed_path`). -/
+i.e. preceded by all of its not-yet-placed parent directories and hardlink targets. -/
 theorem prioritized_prefix_order {es : List Entry} {prio : List String} {allow : Bool}
     {out : List Entry} {missed : List String}
     (h : sortEntries es prio allow = .ok out missed) :
     ∃ blocks rest, out = blocks.flatten ++ landmarkFor prio :: rest ∧
       StepsOK (importTar es) prio [] blocks := by
-  obtain ⟨blocks, hout, hsteps, _⟩ := (sortEntries_structure prio allow).2 out missed h
+  obtain ⟨blocks, hout, hsteps, _⟩ := (sortEntries_structure prio allow).2.2 out missed h
   exact ⟨blocks, _, hout, hsteps⟩
-
-/-- Without a cycle no name is needed by one of its own prerequisites, so in `BlockOK` the entry
-of a listed path that was not placed before IS the last entry of its block. -/
-theorem block_ends_with_listed_path {inp : List Entry} (hnc : NoLinkCycle inp)
-    {l : String} {before b : List Entry} (hb : BlockOK inp l before b)
-    (hm : ¬ Missing inp (cleanEntryName l)) {e : Entry}
-    (he : get inp (cleanEntryName l) = some e) (hne : e ∉ before) : b.getLast? = some e := by
-  rcases (hb.2 hm).2 e he hne with h | h
-  · exact h
-  · exact absurd h (not_selfReach hnc _)
 
 /-- "In the order given": if `l1` is listed before `l2` and both can be placed, then the entry of
 `l1` comes before the entry of `l2` in the leading group — unless `l2`'s entry is itself needed by
@@ -175,7 +165,7 @@ theorem prioritized_order {es : List Entry} {p1 p2 p3 : List String} {l1 l2 : St
     (h2 : get (importTar es) (cleanEntryName l2) = some e2) (hm2 : ¬ Missing (importTar es) (cleanEntryName l2)) :
     (∃ a b c rest, out = a ++ e1 :: b ++ e2 :: c ++ landmarkFor (p1 ++ l1 :: p2 ++ l2 :: p3) :: rest) ∨
     (∃ l ∈ p1 ++ [l1], Reach (importTar es) (cleanEntryName l) e2.key) := by
-  obtain ⟨blocks, hout, hsteps, _⟩ := (sortEntries_structure _ allow).2 out missed h
+  obtain ⟨blocks, hout, hsteps, _⟩ := (sortEntries_structure _ allow).2.2 out missed h
   generalize (importTar es).filter (fun e => decide (e ∉ blocks.flatten)) = rest at hout
   -- split the blocks at l1 and at l2
   have hlist : p1 ++ l1 :: p2 ++ l2 :: p3 = (p1 ++ [l1]) ++ ((p2 ++ [l2]) ++ p3) := by simp
@@ -222,24 +212,26 @@ theorem leading_group_closed {es : List Entry} {prio : List String} {allow : Boo
       ∀ pre e post, group = pre ++ e :: post → e.key ≠ [] →
         PlacedIn (importTar es) pre e.key.dropLast ∧
         (e.isLink = true → PlacedIn (importTar es) pre (cleanEntryName e.linkName)) := by
-  obtain ⟨blocks, hout, _, _, _, hclosed, _⟩ := (sortEntries_structure prio allow).2 out missed h
+  obtain ⟨blocks, hout, _, _, _, hclosed, _⟩ := (sortEntries_structure prio allow).2.2 out missed h
   refine ⟨blocks.flatten, _, hout, ?_⟩
   intro pre e post hsplit hne
   exact closedR_split _ hclosed pre e post hsplit hne
 
 /-! ### missing paths -/
 
-/-- Without allow-not-found: a failing call means some listed path cannot be placed (`Missing`:
-the path, one of its ancestors or a hardlink target it depends on is not in the tar); a
-succeeding call means every listed path could be placed, and nothing is reported; and (given
-termination) the call does fail whenever some listed path cannot be placed. -/
+/-- Without allow-not-found: the call fails whenever some listed path cannot be placed
+(`Missing`: the path, one of its ancestors or a hardlink target it depends on is not in the tar);
+a failing call means exactly that, or that a listed path runs into a cycle of hardlinks
+(`ReachesCycle`); a succeeding call means every listed path could be placed, and nothing is
+reported. -/
 theorem missing_path_aborts {es : List Entry} {prio : List String} :
-    (sortEntries es prio false = .err → ∃ l ∈ prio, Missing (importTar es) (cleanEntryName l)) ∧
+    ((∃ l ∈ prio, Missing (importTar es) (cleanEntryName l)) → sortEntries es prio false = .err) ∧
+    (sortEntries es prio false = .err →
+      (∃ l ∈ prio, Missing (importTar es) (cleanEntryName l)) ∨
+      (∃ l ∈ prio, ReachesCycle (importTar es) (cleanEntryName l))) ∧
     (∀ out missed, sortEntries es prio false = .ok out missed →
-      missed = [] ∧ ∀ l ∈ prio, ¬ Missing (importTar es) (cleanEntryName l)) ∧
-    (NoLinkCycle (importTar es) → (∃ l ∈ prio, Missing (importTar es) (cleanEntryName l)) →
-      sortEntries es prio false = .err) := by
-  obtain ⟨he, hok⟩ := sortEntries_structure (es := es) prio false
+      missed = [] ∧ ∀ l ∈ prio, ¬ Missing (importTar es) (cleanEntryName l)) := by
+  obtain ⟨hd, he, hok⟩ := sortEntries_structure (es := es) prio false
   have hok' : ∀ out missed, sortEntries es prio false = .ok out missed →
       missed = [] ∧ ∀ l ∈ prio, ¬ Missing (importTar es) (cleanEntryName l) := by
     intro out missed hs
@@ -249,24 +241,35 @@ theorem missing_path_aborts {es : List Entry} {prio : List String} :
     unfold missedOf
     rw [List.filter_eq_nil_iff]
     intro l hl hr
-    exact hall rfl l hl (resolve_notFound _ _ (by simpa using hr))
-  refine ⟨fun h => (he h).2, hok', ?_⟩
-  rintro hnc ⟨l, hl, hm⟩
-  cases hs : sortEntries es prio false with
-  | err => rfl
-  | diverge => exact absurd hs (sortEntries_ne_diverge hnc prio false)
-  | ok out missed => exact absurd hm ((hok' out missed hs).2 l hl)
+    exact hall rfl l hl (resolve_notFound _ _ _ (by simpa using hr))
+  refine ⟨?_, ?_, hok'⟩
+  · rintro ⟨l, hl, hm⟩
+    cases hs : sortEntries es prio false with
+    | err => rfl
+    | diverge => exact absurd hs hd
+    | ok out missed => exact absurd hm ((hok' out missed hs).2 l hl)
+  · intro h
+    rcases he h with ⟨_, hm⟩ | hc
+    · exact Or.inl hm
+    · exact Or.inr hc
 
-/-- With allow-not-found the call never fails; when it returns it reports back exactly the listed
-paths that cannot be placed, in the order (and spelling, and multiplicity) in which they were
-listed; and (given termination) it does return. -/
+/-- With allow-not-found the call returns a result unless a listed path runs into a cycle of
+hardlinks (the only error left), and then reports back exactly the listed paths that cannot be
+placed, in the order (and spelling, and multiplicity) in which they were listed. -/
 theorem missing_path_reported {es : List Entry} {prio : List String} :
-    sortEntries es prio true ≠ .err ∧
+    (sortEntries es prio true = .err → ∃ l ∈ prio, ReachesCycle (importTar es) (cleanEntryName l)) ∧
+    ((∀ l ∈ prio, ¬ ReachesCycle (importTar es) (cleanEntryName l)) →
+      ∃ out, sortEntries es prio true = .ok out (missedOf (importTar es) prio)) ∧
     (∀ out missed, sortEntries es prio true = .ok out missed →
       missed = missedOf (importTar es) prio ∧ missed.Sublist prio ∧
-      ∀ l, l ∈ missed ↔ l ∈ prio ∧ Missing (importTar es) (cleanEntryName l)) ∧
-    (NoLinkCycle (importTar es) → ∃ out, sortEntries es prio true = .ok out (missedOf (importTar es) prio)) := by
-  obtain ⟨he, hok⟩ := sortEntries_structure (es := es) prio true
+      ∀ l, l ∈ missed ↔ l ∈ prio ∧ Missing (importTar es) (cleanEntryName l)) := by
+  obtain ⟨hd, he, hok⟩ := sortEntries_structure (es := es) prio true
+  have herr : sortEntries es prio true = .err →
+      ∃ l ∈ prio, ReachesCycle (importTar es) (cleanEntryName l) := by
+    intro h
+    rcases he h with ⟨ha, _⟩ | hc
+    · cases ha
+    · exact hc
   have hok' : ∀ out missed, sortEntries es prio true = .ok out missed →
       missed = missedOf (importTar es) prio ∧ missed.Sublist prio ∧
       ∀ l, l ∈ missed ↔ l ∈ prio ∧ Missing (importTar es) (cleanEntryName l) := by
@@ -279,20 +282,25 @@ theorem missing_path_reported {es : List Entry} {prio : List String} :
     simp only [List.mem_filter, beq_iff_eq]
     constructor
     · rintro ⟨hl, hr⟩
-      exact ⟨hl, resolve_notFound _ _ hr⟩
+      exact ⟨hl, resolve_notFound _ _ _ hr⟩
     · rintro ⟨hl, hm⟩
       exact ⟨hl, (resolve_notFound_iff (hnd l hl)).mpr hm⟩
-  refine ⟨?_, hok', ?_⟩
-  · intro h
-    have := (he h).1
-    cases this
+  refine ⟨herr, ?_, hok'⟩
   intro hnc
   cases hs : sortEntries es prio true with
-  | err => have := (he hs).1; cases this
-  | diverge => exact absurd hs (sortEntries_ne_diverge hnc prio true)
+  | err =>
+    obtain ⟨l, hl, hc⟩ := herr hs
+    exact absurd hc (hnc l hl)
+  | diverge => exact absurd hs hd
   | ok out missed =>
     obtain ⟨hm, _⟩ := hok' out missed hs
     exact ⟨out, by rw [hm]⟩
+
+/-- The cycle error is never spurious: if the parent/hardlink graph has no cycle (some rank
+strictly decreases along every parent and hardlink edge) no path `ReachesCycle`. -/
+theorem no_cycle_error_without_cycle {inp : List Entry} (hnc : NoLinkCycle inp) (k : Name) :
+    ¬ ReachesCycle inp k :=
+  not_reachesCycle hnc k
 
 /-- A listed path (other than the root) that is not in the tar is `Missing`; conversely a path
 that can be placed is in the tar (or is the root). -/
@@ -308,26 +316,63 @@ theorem listed_path_absent_is_missing (inp : List Entry) (k : Name) :
 
 /-! ### termination -/
 
-/-- `moveRec` terminates: with fuel = number of entries + 1 it never runs out of fuel when the
-parent/hardlink graph has no cycle — from every state `sortEntries` can be in (`Inv`), for every
-name. -/
-theorem moveRec_terminates {inp : List Entry} (hnc : NoLinkCycle inp) {st : MState} (hinv : Inv inp st)
+/-- `moveRec` terminates, for EVERY tar: with fuel = number of entries + 1 it never runs out of
+fuel (the names on the recursion path are pairwise different entries of the tar) — from every
+state `sortEntries` can be in (`Inv`), for every name. -/
+theorem moveRec_terminates {inp : List Entry} {st : MState} (hinv : Inv inp st)
     (k : Name) : (moveRec inp (moveFuel inp) k st).2 ≠ .diverge := by
   rw [moveRec_status hinv]
-  exact resolve_terminates hnc k
+  exact resolve_terminates inp k
 
-/-- … and so does `sortEntries`, for every prioritized list. -/
-theorem sortEntries_terminates {es : List Entry} (hnc : NoLinkCycle (importTar es))
-    (prio : List String) (allow : Bool) : sortEntries es prio allow ≠ .diverge :=
-  sortEntries_ne_diverge hnc prio allow
+/-- … and so does `sortEntries`, for every tar and every prioritized list: the result is a sorted
+list or an error. -/
+theorem sortEntries_terminates (es : List Entry) (prio : List String) (allow : Bool) :
+    sortEntries es prio allow ≠ .diverge ∧
+    ((∃ out missed, sortEntries es prio allow = .ok out missed) ∨ sortEntries es prio allow = .err) := by
+  have hd := (sortEntries_structure (es := es) prio allow).1
+  refine ⟨hd, ?_⟩
+  cases hs : sortEntries es prio allow with
+  | ok out missed => exact Or.inl ⟨out, missed, rfl⟩
+  | err => exact Or.inr rfl
+  | diverge => exact absurd hs hd
 
-/-- The hypothesis cannot be dropped: for two hardlinks pointing at each other the recursion never
-bottoms out (the Go code overflows its stack on this input). -/
-theorem cycle_diverges_witness :
-    sortEntries
-      [{ id := 1, name := "a", isLink := true, linkName := "b", isReg := false, size := 0 },
-       { id := 2, name := "b", isLink := true, linkName := "a", isReg := false, size := 0 }]
-      ["a"] false = .diverge := by decide
+/-- Two hardlinks pointing at each other. -/
+def cycleTar : List Entry :=
+  [{ id := 1, name := "a", isLink := true, linkName := "b", isReg := false, size := 0 },
+   { id := 2, name := "b", isLink := true, linkName := "a", isReg := false, size := 0 }]
+
+/-- The code before the repair (`moveRecOld`, no `visiting` set) does not terminate on
+`cycleTar`: whatever the fuel, it is used up (the Go code overflowed its stack on this input). -/
+theorem cycle_diverges_witness (fuel : Nat) (st : MState) :
+    (moveRecOld cycleTar fuel ["a"] st).2 = .diverge ∧ (moveRecOld cycleTar fuel ["b"] st).2 = .diverge := by
+  induction fuel generalizing st with
+  | zero => exact ⟨rfl, rfl⟩
+  | succ f ih =>
+    have hga : get cycleTar ["a"] = some cycleTar[0] := by decide
+    have hgb : get cycleTar ["b"] = some cycleTar[1] := by decide
+    have hroot : get cycleTar [] = none := by decide
+    have hta : cleanEntryName (cycleTar[0]).linkName = ["b"] := by decide
+    have htb : cleanEntryName (cycleTar[1]).linkName = ["a"] := by decide
+    have hparent : (moveRecOld cycleTar f [] st).2 = .diverge ∨
+        moveRecOld cycleTar f [] st = (st, .ok) := by
+      cases f with
+      | zero => exact Or.inl rfl
+      | succ f' => right; simp [moveRecOld, hroot]
+    have hda : (["a"] : Name).dropLast = [] := rfl
+    have hdb : (["b"] : Name).dropLast = [] := rfl
+    constructor
+    · rw [moveRecOld_link f st (by decide) hga (by decide), hta, hda]
+      rcases hparent with hp | hp
+      · simp [hp]
+      · simp [hp, (ih st).2]
+    · rw [moveRecOld_link f st (by decide) hgb (by decide), htb, hdb]
+      rcases hparent with hp | hp
+      · simp [hp]
+      · simp [hp, (ih st).1]
+
+/-- The repaired code reports the same input as an error, with and without allow-not-found. -/
+theorem cycle_reported_witness :
+    sortEntries cycleTar ["a"] false = .err ∧ sortEntries cycleTar ["a"] true = .err := by decide
 
 /-! ### offsets -/
 
@@ -367,7 +412,7 @@ theorem data_before_landmark_iff_prioritized {es : List Entry} {prio : List Stri
       (∀ o ∈ pre ++ post, o.tag ≠ landmarkFor prio) ∧
       (∀ o ∈ pre ++ post, (o.off < lm.off ↔ o.tag ∈ group) ∧ (lm.off ≤ o.off ↔ o.tag ∈ rest)) := by
   obtain ⟨hperm, hnodup⟩ := sort_perm h
-  obtain ⟨blocks, hout, _⟩ := (sortEntries_structure prio allow).2 out missed h
+  obtain ⟨blocks, hout, _⟩ := (sortEntries_structure prio allow).2.2 out missed h
   generalize hrest : (importTar es).filter (fun e => decide (e ∉ blocks.flatten)) = rest at hout
   -- the chunk sequence splits at the landmark's single chunk
   have hlmchunk : chunkTags (effChunkSize chunkSize) [landmarkFor prio] = [(landmarkFor prio, true)] := by
@@ -444,7 +489,8 @@ example : (match sortEntries exTar ["/l2", "nothere", "g"] true with
 
 example : sortEntries exTar ["/l2", "nothere", "g"] false = .err := by decide
 
-/-- `exTar` satisfies the hypothesis of the theorems: rank = depth, hardlinks above their targets. -/
+/-- `exTar` has no cycle (`no_cycle_error_without_cycle` applies): rank = depth, hardlinks above
+their targets. -/
 example : NoLinkCycle (importTar exTar) := by
   refine ⟨fun k => if k = ["l2"] then 10 else if k = ["l1"] then 9 else k.length, ?_⟩
   intro k e hk hg
@@ -458,7 +504,7 @@ example : NoLinkCycle (importTar exTar) := by
 
 -- the invariant is satisfiable in a non-trivial state (after one step of the loop)
 example : Inv (importTar exTar) (moveRec (importTar exTar) (moveFuel (importTar exTar)) ["l1"] ⟨[], []⟩).1 :=
-  (moveRec_spec _ _ _ _ (Inv.empty _)).inv
+  (moveRec_spec _ _ _ _ [] (Inv.empty _) (by simp)).inv
 
 -- the writer: min-chunk-size 100 lets the first two files share a stream; the forced chunk does not
 example : (combine 100 0 [([⟨"f", false, 30, 8⟩, ⟨"g", false, 20, 8⟩, ⟨"LM", true, 5, 8⟩, ⟨"h", false, 3, 8⟩], 8)]).map
